@@ -23,10 +23,12 @@ PROBES = {
             "update_params_false", "refit_equivalence_checked", "no_param_update_checked",
             "update_predict_checked", "update_predict_default_cv", "update_predict_multi_step",
             "update_before_any_fh", "pickle_midway", "ensemble_parallel_update",
-            "cutoff_restored_checked", "exogenous_data", "stale_batch", "failed_call_injected"],
+            "cutoff_restored_checked", "exogenous_data", "stale_batch", "failed_call_injected",
+            "batching_invariance_checked", "labels_after_stale_checked"],
     "C03": ["gapped_fh", "absolute_fh", "fh_at_fit", "fh_reused_across_cutoffs",
             "predict_after_update", "shifted_twin_checked", "gapped_vs_contiguous_checked",
             "exogenous_data", "stale_batch", "failed_call_injected", "unsorted_fh", "fh_as_index",
+            "labels_after_stale_checked",
             "int_index_nonzero_origin", "negative_origin", "composite_depth2",
             "tuned_forecaster"],
 }
@@ -369,6 +371,9 @@ class Engine:
         self.updates_since_fit = 0
         self.refit_clean = False     # last state change was fit / update(True) (no update_predict since)
         self.snap_refit = None       # pickle of the forecaster right after its last (re)fit
+        self.snap_fit = None         # pickle right after the last fit()
+        self.since_fit = []          # every batch given to update since that fit
+        self.all_up = True           # all of them with update_params=True
         self.since_refit = []        # batches given with update_params=False since then
         self.fit_fh = None
         self.after_upd = False       # state right after update_predict (see op_predict)
@@ -459,6 +464,8 @@ class Engine:
         self.stale_state = False
         self.updates_since_fit = 0
         self.snapshot()
+        self.snap_fit = self.snap_refit
+        self.since_fit, self.all_up = [], True
         if fhs and self.prop == "C03":
             self.res.probe("fh_at_fit")
         self.note("fit", n0, fhs)
@@ -522,6 +529,8 @@ class Engine:
             self.res.fault("overlap_batch")
         if len(b):
             self.stale_state = False
+            self.since_fit.append(b)
+            self.all_up = self.all_up and up
         if up:
             self.refit_clean = True   # (an empty batch still refits on everything seen)
             self.after_upd = False
@@ -560,6 +569,7 @@ class Engine:
         self.updates_since_fit += 1
         self.refit_clean = False
         self.snap_refit = None       # batching-invariance twin does not model a cutoff moved back
+        self.snap_fit = None
         self.since_refit = []
         # forecasts from a cutoff moved back into the data are not judged (the last window may
         # not even fit there); the next forward update brings the cutoff to the end again
@@ -635,6 +645,7 @@ class Engine:
             # data of the windows handed over before the fault is legitimately remembered
             self.refit_clean = False
             self.snap_refit = None
+            self.snap_fit = None
             self.after_upd = True
             if n_yield > 0:
                 for actor in self.actors():
@@ -652,12 +663,39 @@ class Engine:
             # no horizon known anywhere (a C20 matter), or a remembered absolute
             # horizon that may by now lie in-sample (outside the property)
             return
+        if self.stale_state and fhs is not None and not fhs.get("abs"):
+            # after a stale batch (non-refitting path) the forecast must at least be made from,
+            # and labelled by, the new cutoff - in a composite by every part of it; values are
+            # not judged there (the last window may not even fit) and a failure is tolerated
+            self.labels_after_stale(i, fhs)
+            return
         if self.after_upd:
             # right after update_predict the cutoff is restored while data and fitted
             # parameters are those of the last window; neither property speaks about
             # forecasts made in that state (DESIGN.md, C10 notes)
             return
         self.predict_and_check(i, fhs)
+
+    def labels_after_stale(self, i, fhs):
+        steps = list(fhs["steps"])
+        for who, actor in (("primary", self.a), ("twin", self.tw)):
+            if actor is None:
+                continue
+            try:
+                with peers.paused():
+                    g = pickle.loads(pickle.dumps(actor.f))  # (predict would change the remembered fh)
+                    p = g.predict(_mk_fh(fhs, actor.label(actor.cut), actor.kind))
+            except Exception:
+                return
+            self.res.probe("labels_after_stale_checked")
+            exp = _expected_index(steps, actor.label(actor.cut))
+            if isinstance(p, pd.Series) and len(p) == len(steps) and not C.same_index(list(p.index), exp):
+                self.v("forecast_not_from_new_cutoff", "after an update (update_params=False) with a "
+                       "batch ending at %s, predict(%s) is labelled %s, expected %s (%s)" % (
+                           actor.label(actor.cut), steps, list(p.index)[:5], exp[:5], who),
+                       op="predict", after_update=True)
+                self.dead = True
+                return
 
     def predict_and_check(self, i, fhs, label="predict"):
         steps = list(fhs["steps"]) if fhs else list(self.a.fh_steps)
@@ -707,6 +745,8 @@ class Engine:
         self.updates_since_fit += 1
         self.after_upd = False
         self.stale_state = False
+        self.since_fit.append(b)
+        self.all_up = self.all_up and up
         if up:
             self.refit_clean = True
             self.snapshot()
@@ -782,6 +822,7 @@ class Engine:
         self.state_changes += 1
         self.refit_clean = False
         self.snap_refit = None
+        self.snap_fit = None
         self.after_upd = True
         if not C.needs_fh_at_fit(self.spec):
             for actor in self.actors():
@@ -937,6 +978,28 @@ class Engine:
                 self.v("refit_equivalence",
                        "after fit+update(s) predict(%s) gives %s, a fresh forecaster fitted on all "
                        "data seen gives %s" % (steps, C.fmt(p), C.fmt(q)), op="predict")
+        elif self.snap_fit is not None and len(self.since_fit) >= 2 and self.all_up \
+                and self.spec["kind"] in ("theta", "stack") and not self.after_upd:
+            # several updates with update_params=True == one update with all of their data:
+            # these updates recompute their parameters from the whole remembered series (Theta:
+            # trend; stacking: members refitted, meta-learner untouched)
+            with peers.paused():
+                try:
+                    g = pickle.loads(self.snap_fit)
+                    union = pd.concat(self.since_fit)
+                    union = union[~union.index.duplicated(keep="last")].sort_index()
+                    s2 = sched.Scheduler("fifo", 0)
+                    with sched.scenario_schedule(s2):
+                        g.update(union, update_params=True)
+                        q = g.predict(_mk_fh(fhs, None, a.kind))
+                except Exception as e:  # noqa
+                    self.note("batching_twin_raised", type(e).__name__)
+                    return
+            self.res.probe("batching_invariance_checked")
+            if not C.same_series(p, q):
+                self.v("update_depends_on_batching", "after %d updates predict(%s) gives %s, the "
+                       "forecaster as of its fit given the same observations in one update gives %s"
+                       % (len(self.since_fit), steps, C.fmt(p), C.fmt(q)), op="predict")
         elif self.snap_refit is not None and self.since_refit:
             # parameter updating disabled: a copy from the last (re)fit given the same
             # observations in one batch must forecast the same, and the fitted
